@@ -282,6 +282,12 @@ def plan_C01(prop, tier):
     jobs = w1_jobs(tier, cfgs, G_ALL, 0)
     jobs += w2_jobs(tier, ("NM", "TR"), W2_PAIRS[tier], (-1, 0, 7), 0)
     jobs += w2_jobs(tier, ("MO",), W2_PAIRS[tier], (0,), 0)
+    if tier == "thorough":
+        # the same exploration with the header compiled by clang++ (C++17 and C++20)
+        for cfg in (("NM", 2, 1), ("TR", 2, 1), ("MO", 0, 1), ("CO", 3, 1)):
+            for sd in ("17", "20"):
+                b = rebuild_as(w1bin(*cfg), "clang++", sd)
+                jobs.append(Job(b.name, b, svmc_args(tier, G_ALL, 0)))
     return run_svmc(prop, tier, jobs)
 
 
